@@ -176,6 +176,23 @@ pub fn run(ctx: &Ctx, rep: &Report) -> Meta {
         })
         .collect();
     par_items(ctx, rep, "large-vectors", &big, |c| check(rep, "large-vectors", c));
+    // vectors around the 255 / 256 boundary (and 300): updates at 0, 253, 254, 255, 256 and the last position
+    let huge: Vec<Case> = [(SuiteId::Sha256, 255usize), (SuiteId::Shake256, 256), (SuiteId::Sha256, 257), (SuiteId::Shake256, 300)]
+        .iter()
+        .map(|&(suite, l)| Case {
+            suite,
+            key: KeySpec { fixture: false, ikm: BSpec { len: 32, class: 0, seed: l as u32 }, key_info: OptBytes::None, key_dst: OptBytes::None },
+            header: OptBytes::None,
+            msgs: MsgVec { items: (0..l).map(|j| BSpec { len: 4, class: 0, seed: j as u32 }).collect() },
+            steps: [0usize, 253, 254, 255, 256, l - 1]
+                .iter()
+                .filter(|&&p| p < l)
+                .map(|&p| Step { pos: ((((p as u64) << 16) + (1 << 15)) / l as u64).min(65535) as u16, val: BSpec { len: 9, class: 0, seed: (l * 7 + p) as u32 } })
+                .collect(),
+            sweep: false,
+        })
+        .collect();
+    par_items(ctx, rep, "boundary-255", &huge, |c| check(rep, "boundary-255", c));
     // every vector length in a contiguous range, updates at the first, second, middle and last position
     let sweep: Vec<Case> = (7..=ctx.tier.pick(72usize, 200usize))
         .map(|l| Case {
